@@ -181,6 +181,22 @@ func copySource(f *ir.Func, obj types.Object) types.Object {
 // tupleDef returns the call and result index that define obj in a tuple
 // assignment `a, b, c := call()`, when that is obj's only definition.
 func tupleDef(f *ir.Func, obj types.Object) (*ast.CallExpr, int) {
+	// a whole copy of another local that is itself defined once and never written as a whole again
+	// (`pending.revision := revision`): the definition of the source is the definition that matters
+	for i := 0; i < 3 && obj != nil; i++ {
+		ds := wholeDefs(f, obj)
+		if len(ds) != 1 || ds[0].RHS == nil {
+			break
+		}
+		src, ok := f.ObjOf(ds[0].RHS).(*types.Var)
+		if !ok || src.IsField() || src == obj || !types.Identical(src.Type(), obj.Type()) {
+			break
+		}
+		if _, isID := ast.Unparen(ds[0].RHS).(*ast.Ident); !isID || len(wholeDefs(f, src)) != 1 {
+			break
+		}
+		obj = src
+	}
 	defs := wholeDefs(f, obj)
 	var found *ast.CallExpr
 	idx := -1
